@@ -20,6 +20,8 @@ Requests (hex = lower-case hex, `-` = empty byte string):
   decv <Name> <strict|lenient> <hex>   decode bytes into a value of the table's type → `ok <value…>` | `err`
   acc <accessor> <strict|lenient> <hex>  a partial-decoder accessor on one stored record → `ok <value…>` | `err`
   utf8 <hex>                is the byte string valid UTF-8                    → `true` | `false`
+  fsh <n>                   header felt.Slice.MarshalCBOR writes for n elements → `ok <hex>`
+  unfsh <hex>               decodeCBORArrayHeader                              → `ok <n> <consumed>` | `none`
   key num <bucket> <n> | key bt <n>     database key of a block number            → `ok <hex>`
   numidx <n> <i>            BlockNumIndexKey bytes                             → `ok <hex>`
   declared <at> <hex>       stored bytes of a DeclaredClassDefinition (class item given) → `ok <hex>`
@@ -200,6 +202,17 @@ def step (s : Unit) (line : String) : Unit × String :=
       | some out => (s, out)
       | none => (s, "bad-op")
     | _, _ => (s, "bad-op")
+  | ["fsh", n] =>
+    match n.toNat? with
+    | some n => (s, "ok " ++ bytesToHex (sliceHeader n))
+    | none => (s, "bad-op")
+  | ["unfsh", h] =>
+    match hexToBytes? h with
+    | some bs =>
+      match decSliceHeader bs with
+      | some (n, k) => (s, s!"ok {n} {k}")
+      | none => (s, "none")
+    | none => (s, "bad-op")
   | ["key", "num", b, n] =>
     match b.toNat?, n.toNat? with
     | some b, some n => (s, "ok " ++ bytesToHex (keyByNumber b n))
